@@ -280,8 +280,22 @@ def conj_fields(f):
         return set()
 
     # states are frozensets of (variable, frozenset of fields) pairs (a dict would be read as per-edge states by the solver)
+    GUARD = "__guards__"
+
     def transfer(node, st0):
         st = dict(st0)
+        if node.kind == "test":
+            # a guard `if not (A and B): return False` establishes A and B on the edge that continues
+            t = node.ast
+            neg = isinstance(t, ast.UnaryOp) and isinstance(t.op, ast.Not)
+            core = t.operand if neg else t
+            d = frozenset(deps(core, st))
+            if d:
+                yes = dict(st)
+                yes[GUARD] = frozenset(st.get(GUARD, frozenset()) | d)
+                edge_true, edge_false = ("F", "T") if neg else ("T", "F")
+                return {edge_true: frozenset(yes.items()), edge_false: frozenset(st.items()), None: frozenset(st.items())}
+            return frozenset(st.items())
         if node.kind == "stmt" and isinstance(node.ast, ast.Assign) and len(node.ast.targets) == 1 and isinstance(node.ast.targets[0], ast.Name):
             st[node.ast.targets[0].id] = frozenset(deps(node.ast.value, st))
         elif node.kind == "stmt" and isinstance(node.ast, ast.AugAssign) and isinstance(node.ast.target, ast.Name):
@@ -290,7 +304,7 @@ def conj_fields(f):
 
     def join(a, b):
         a, b = dict(a), dict(b)
-        return frozenset((k, a[k] & b[k]) for k in a.keys() & b.keys())
+        return frozenset((k, a[k] & b[k]) for k in a.keys() & b.keys())   # a fact missing on one side is dropped (must-analysis)
 
     states = solve_forward(g, frozenset(), transfer, join)
     result = None
@@ -301,7 +315,9 @@ def conj_fields(f):
             # `return False` is a rejecting exit: it cannot make two different objects equal
             if isinstance(v, ast.Constant) and v.value is False:
                 continue
-            d = deps(v, dict(states[n.id])) if v is not None else set()
+            d = (deps(v, dict(states[n.id])) if v is not None else set()) | set(dict(states[n.id]).get(GUARD, frozenset()))
+            if isinstance(v, ast.Call) and isinstance(v.func, ast.Name) and v.func.id == "bool" and len(v.args) == 1:
+                d |= deps(v.args[0], dict(states[n.id]))
             if result is None or not (result <= d):
                 witness = n if result is None or len(d) < len(result) else witness
             result = d if result is None else (result & d)
